@@ -3106,14 +3106,19 @@ impl<'source> Parser<'source> {
         // The indentation of the first arm is taken from the arm's own token: after
         // consume_until_token_with_context the current token is the last skipped whitespace, comment
         // or newline token, whose indent is that of the preceding line when the arm starts at column 0.
+        // Every arm starts with the indentation of the first arm, whatever indentation rule the
+        // expression itself was reached with (inside brackets: Flexible, as a call argument on its
+        // own line: Equal(argument indent), as an operand on a continuation line: GreaterOrEqual).
         let arm_context = match self.consume_until_token_with_context(switch_context) {
-            Some(arm_context)
-                if self
-                    .peek_token_with_context(switch_context)
-                    .is_some_and(|arm| arm.info.indent > current_indent) =>
-            {
-                arm_context
-            }
+            Some(arm_context) => match self.peek_token_with_context(switch_context) {
+                Some(arm) if arm.info.indent > current_indent => {
+                    arm_context.with_expected_indentation(Indentation::Equal(arm.info.indent))
+                }
+                _ => {
+                    return self
+                        .consume_token_on_same_line_and_error(ExpectedIndentation::SwitchArm);
+                }
+            },
             _ => return self.consume_token_on_same_line_and_error(ExpectedIndentation::SwitchArm),
         };
 
@@ -3209,14 +3214,19 @@ impl<'source> Parser<'source> {
             };
 
         // See consume_switch_expression: the indentation is read from the first arm's own token
+        // Every arm starts with the indentation of the first arm, whatever indentation rule the
+        // expression itself was reached with (inside brackets: Flexible, as a call argument on its
+        // own line: Equal(argument indent), as an operand on a continuation line: GreaterOrEqual).
         let arm_context = match self.consume_until_token_with_context(match_context) {
-            Some(arm_context)
-                if self
-                    .peek_token_with_context(match_context)
-                    .is_some_and(|arm| arm.info.indent > current_indent) =>
-            {
-                arm_context
-            }
+            Some(arm_context) => match self.peek_token_with_context(match_context) {
+                Some(arm) if arm.info.indent > current_indent => {
+                    arm_context.with_expected_indentation(Indentation::Equal(arm.info.indent))
+                }
+                _ => {
+                    return self
+                        .consume_token_on_same_line_and_error(ExpectedIndentation::MatchArm);
+                }
+            },
             _ => return self.consume_token_on_same_line_and_error(ExpectedIndentation::MatchArm),
         };
 
